@@ -295,6 +295,18 @@ def run_newmark_case(sh, np, ode, rec, C, r, case):
         else C["F"].copy()
     ics = [None if x is None else np.array(x, copy=True) for x in (C["d0"], C["v0"])]
     sol = ts.tsolve(Fin, C["d0"], C["v0"])
+    if case.get("index", 0) % 3 == 2:
+        # a second solution of the same length on the same solver object must leave the
+        # first one handed out untouched
+        keep_ = {q: np.array(getattr(sol, q), copy=True) for q in "dva"}
+        try:
+            ts.tsolve(C["F"] * 0.5 + 1.0, C["d0"], C["v0"])
+        except Exception:      # noqa: BLE001 -- only the first call is judged
+            pass
+        sh.count("mon:nm-earlier-result-unmutated")
+        if any(not np.array_equal(np.asarray(getattr(sol, q)), keep_[q], equal_nan=True)
+               for q in "dva"):
+            sh.violation("nm-earlier-result-unmutated", case, {}, tags)
     sh.count("mon:nm-inputs-unmutated")
     if not np.array_equal(Fin, C["F"]) or any(
             a is not None and not np.array_equal(a, b)
@@ -473,6 +485,17 @@ def part_cdf(sh, np, ode, rec, params):
                 ts = ode.SolveUnc(C["m"], C["b"], C["k"], C["h"], cd_as_force=True, **kw)
             Fin = np.asfortranarray(C["F"].copy()) if ci % 3 == 1 else C["F"].copy()
             sol = ts.tsolve(Fin, C["d0"], C["v0"], static_ic=C["static_ic"])
+            if ci % 3 == 2:
+                keep_ = {q: np.array(getattr(sol, q), copy=True) for q in "dva"}
+                try:
+                    ts.tsolve(C["F"] * 0.5 + 1.0, C["d0"], C["v0"],
+                              static_ic=C["static_ic"])
+                except Exception:      # noqa: BLE001
+                    pass
+                sh.count("mon:cdf-earlier-result-unmutated")
+                if any(not np.array_equal(np.asarray(getattr(sol, q)), keep_[q],
+                                          equal_nan=True) for q in "dva"):
+                    sh.violation("cdf-earlier-result-unmutated", case, {}, t)
             sh.count("mon:cdf-inputs-unmutated")
             if not np.array_equal(Fin, C["F"]):
                 sh.violation("cdf-inputs-unmutated", case,
